@@ -33,6 +33,9 @@ introduce while refactoring, optimising or "simplifying") that BREAK this proper
 and the existing test suite still passes:
 `cd {wt} && /venv/bin/python -m pytest -q -p no:cacheprovider --timeout=900 --continue-on-collection-errors`
 -> 150 passed, and exactly the 2 known failures test_pose_encode and test_find_message_types.
+IMPORTANT: that command imports the copy of the package installed in /venv, not your tree, so ALSO run it as
+`cd {wt} && PYTHONPATH={wt}/python /venv/bin/python -m pytest -q -p no:cacheprovider --timeout=900 --continue-on-collection-errors`
+-> 152 passed (this one really exercises your change; it must stay at 152 passed).
 Prefer changes that need something specific to manifest — a particular interleaving or chunking, a multi-step sequence of
 operations, an unusual or boundary input, a fault at a particular point, or two cooperating sites that each look fine
 alone — rather than ones ordinary use would expose at once. Each change must look innocent in isolation. Spread the
